@@ -31,6 +31,7 @@ import build_impl  # noqa: E402
 from gen import Gen, reg_lines, unreg_lines  # noqa: E402
 
 PYTHON = os.environ.get('VERIF_PYTHON', '/venv/bin/python')
+ALL_TRANSLATORS = ['hash_fields']
 ALLOWED_AXIOMS = {'propext', 'Classical.choice', 'Quot.sound'}
 FORBIDDEN = re.compile(r'\bsorry\b|\badmit\b|^\s*axiom\s|\bnative_decide\b|\bbv_decide\b|'
                        r'implemented_by|\bunsafe\s|maxHeartbeats\s+0\b', re.M)
@@ -232,6 +233,9 @@ def run_check(prop: str, tier: str, seed: int, replay: str | None, t0: float) ->
     replays_dir.mkdir(exist_ok=True)
     findings = load_findings(prop)
     notes: list[str] = []
+    if not replay:
+        for old in replays_dir.glob(f'{prop}-{seed}-{tier}-*.json'):
+            old.unlink()
 
     # 1. implementation build
     try:
@@ -239,15 +243,23 @@ def run_check(prop: str, tier: str, seed: int, replay: str | None, t0: float) ->
     except build_impl.BuildError as e:
         raise Infra(str(e)) from e
 
-    # 2. translators
+    # 2. translators (all of them: the driver imports the generated files) + 3. proofs,
+    #    serialised across concurrently running checks
+    import fcntl
     gen_notes = []
-    for name in getattr(mod, 'TRANSLATORS', []):
-        ex = importlib.import_module(f'extract.{name}')
-        gen_notes.append(ex.run(build_impl.REPO, LEAN / 'OptreeModel' / 'Generated'))
-
-    # 3. proofs
     names = theorem_names(prop)
-    proof_ok, build_out = lake_build([f'OptreeModel.Properties.{prop}', 'driver'])
+    (LEAN / '.lake').mkdir(exist_ok=True)
+    with open(LEAN / '.lake' / 'verif.lock', 'w') as lock:
+        fcntl.flock(lock, fcntl.LOCK_EX)
+        for name in ALL_TRANSLATORS:
+            ex = importlib.import_module(f'extract.{name}')
+            note = ex.run(build_impl.REPO, LEAN / 'OptreeModel' / 'Generated')
+            if name in getattr(mod, 'TRANSLATORS', []):
+                gen_notes.append(note)
+        proof_ok, build_out = lake_build([f'OptreeModel.Properties.{prop}', 'driver'])
+        driver_ok = (LEAN / '.lake' / 'build' / 'bin' / 'driver').exists()
+        if not proof_ok and not lake_build(['driver'])[0]:
+            driver_ok = False
     broken: list[dict] = []
     axioms: dict[str, list[str]] = {}
     if not proof_ok:
@@ -299,7 +311,7 @@ def run_check(prop: str, tier: str, seed: int, replay: str | None, t0: float) ->
     results, crashed, impl_rc, impl_err = run_impl(prop, build_dir, cases, workdir, setup_lines=setup,
                                                    teardown_lines=teardown,
                                                    timeout=getattr(mod, 'IMPL_TIMEOUT', 3000))
-    model_ok = (LEAN / '.lake' / 'build' / 'bin' / 'driver').exists() or proof_ok
+    model_ok = driver_ok
     disagreements: list[dict] = []
     model_lines = list(setup)
     for c in cases:
